@@ -18,6 +18,7 @@ from __future__ import annotations
 
 import dataclasses
 import hashlib
+import copy
 import json
 import os
 import random
@@ -89,6 +90,9 @@ def enumerate_cases(tag: str, mode: str, rots, rounds: int, slots: int, types, o
 # ------------------------------------------------------------------------------------------------
 
 
+REDUCER_NAMES = ["collect", "append", "extend", "sum", "max", "min", "merge", "first", "last"]
+
+
 def strategies(large: int):
     from hypothesis import strategies as st
 
@@ -114,6 +118,9 @@ def strategies(large: int):
         ("jsonlist", "unicode"): st.lists(uni_d, min_size=1, max_size=3),
         ("strmap", "empty"): st.just({}), ("strmap", "ascii"): st.dictionaries(ascii_t, ascii_t, min_size=1, max_size=4),
         ("strmap", "unicode"): st.dictionaries(uni_t, uni_t, min_size=1, max_size=4),
+        ("reducers", "empty"): st.just({}),
+        ("reducers", "one"): st.dictionaries(st.one_of(ascii_t, uni_t), st.sampled_from(REDUCER_NAMES), min_size=1, max_size=1),
+        ("reducers", "many"): st.dictionaries(st.one_of(ascii_t, uni_t), st.sampled_from(REDUCER_NAMES), min_size=2, max_size=5),
         ("refs", "empty"): st.just(set()), ("refs", "one"): st.builds(lambda a: {a}, st.one_of(ascii_t, uni_t)),
         ("refs", "many"): st.sets(st.one_of(ascii_t, uni_t), min_size=2, max_size=5),
         ("bool", "true"): st.just(True), ("bool", "false"): st.just(False),
@@ -293,7 +300,7 @@ class CaseRun:
         key = (scope, field, tok["w"])
         if key not in self.vals:
             kinds = self.env.kind["msg"][mtype] if table == "msg" else self.env.kind[table]
-            v = make_value(kinds[field], tok["c"], self.pk)
+            v = copy.deepcopy(make_value(kinds[field], tok["c"], self.pk))     # the case's own object (pools are shared)
             self.vals[key] = v
             self.written += 1
             self.covered.add((mtype or table, field, tok["c"]))
@@ -436,7 +443,10 @@ class CaseRun:
                 stg = store.retrieve_stage(self.stage_ids[0])
                 phase_before = stg.status.name
                 for f, tok in (op["set"] or {}).items():
-                    setattr(stg, f, self.val("st1", "st", f, tok))
+                    v = self.val("st1", "st", f, tok)
+                    if f == "context" and stg.output_reducers:
+                        v["_output_reducers"] = dict(stg.output_reducers)     # the caller keeps the stage's private key
+                    setattr(stg, f, v)
                 for f, tok in (op["mem_only"] or {}).items():       # assigned in memory; store_stage must not persist them
                     setattr(stg, f, make_value(self.env.kind["st"][f], tok["c"], self.pk))
                 have = {t.id: t for t in stg.tasks}
@@ -652,9 +662,9 @@ def table_drift(tables: dict) -> list[str]:
         return {ln.strip().split()[0] for ln in m.group(1).splitlines() if ln.strip() and not ln.strip().startswith(("UNIQUE", "PRIMARY"))}
 
     spec_st = {f["n"] for f in tables["st"]} | {"id", "ref_id", "execution_id"}
-    if cols("stage_executions") != spec_st:
+    if cols("stage_executions") != spec_st - {"output_reducers"}:       # persisted through the context column
         problems.append(f"stage_executions columns vs spec StageFields: {sorted(cols('stage_executions') ^ spec_st)}")
-    dc_st = {f.name for f in dataclasses.fields(StageExecution)} - {"tasks", "cleanup_on_failure", "finalizer_names", "output_reducers", "_execution"}
+    dc_st = {f.name for f in dataclasses.fields(StageExecution)} - {"tasks", "cleanup_on_failure", "finalizer_names", "_execution"}
     if dc_st != spec_st - {"execution_id"}:
         problems.append(f"StageExecution fields vs spec StageFields: {sorted(dc_st ^ (spec_st - {'execution_id'}))}")
     spec_tk = {f["n"] for f in tables["tk"]} | {"id", "stage_id", "version"}
